@@ -267,7 +267,7 @@ CLAIMED["C13"] = dict(
          "and skip is cleared for the next line (c13_stop_cut, c13_skip_cut). Tie: suite `interp` with conditional "
          "stop/skip/advance/last among side-effecting components over files with interior/trailing blanks and scan windows, compared "
          "with the Lean model and judged by the reference semantics (absence of later effects); suite `lookahead` judges stop/skip beside "
-         "an onmatch look-ahead directly. Source tie (T): `CsvPath._consider_line` (with `raise_match_count_if`, `stop`, `LineMonitor.is_last_line_and_blank`) is translated from /repo's working tree to Lean on every run (heap mode, Generated/CoreConsiderLine.lean) and proved to compute the run-loop model's `considerLine` for every matcher that keeps the stated contract (Props/RunTie.consider_line_source_is_model). `Matcher.matches` — the loop over the match components, the stop and skip cuts, the AND/OR fold of the votes — is translated too (Generated/CoreMatches.lean; `for` loops over object lists since round 7) and proved to compute the abstract top level `Model.MatchTop.matchLine` for every number of components and every component that keeps the stated contract (no onmatch look-ahead); the interpreter model's top level is an instance of the same definition (Props/MatchTie). The control functions themselves — `Stop._decide_match` with `Stopper._stop_me` and `CsvPath.stop`, `Skip._decide_match` with `Skipper._skip_me`, `Fail._decide_match` — are translated too and proved to compute `Model.ControlTop.stopFn`/`skipFn`/`failFn` (stop(cond) stops exactly when the condition answers True, fail_and_stop fails exactly when it stops, fail() always clears the verdict) for every condition that keeps the stated contract; the interpreter model's cases are instances (Props/ControlTie).",
+         "an onmatch look-ahead directly. Source tie (T): `CsvPath._consider_line` (with `raise_match_count_if`, `stop`, `LineMonitor.is_last_line_and_blank`) is translated from /repo's working tree to Lean on every run (heap mode, Generated/CoreConsiderLine.lean) and proved to compute the run-loop model's `considerLine` for every matcher that keeps the stated contract (Props/RunTie.consider_line_source_is_model). `Matcher.matches` — the loop over the match components, the stop and skip cuts, the AND/OR fold of the votes — is translated too (Generated/CoreMatches.lean; `for` loops over object lists since round 7) and proved to compute the abstract top level `Model.MatchTop.matchLine` for every number of components and every component that keeps the stated contract (no onmatch look-ahead); the interpreter model's top level is an instance of the same definition (Props/MatchTie). The control functions themselves — `Stop._decide_match` with `Stopper._stop_me` and `CsvPath.stop`, `Skip._decide_match` with `Skipper._skip_me`, `Fail._decide_match` — are translated too and proved to compute `Model.ControlTop.stopFn`/`skipFn`/`failFn` (stop(cond) stops exactly when the condition answers True, fail_and_stop fails exactly when it stops, fail() always clears the verdict) for every condition that keeps the stated contract; the interpreter model's cases are instances (Props/ControlTie); `Last._decide_match` likewise (Props/LastTie: last() holds exactly on the file's or the scan's last line and runs what it encloses only there).",
     note=INTERP_NOTE,
     technique="Lean 4 proof (case analysis of the run-loop step and the component loop) + source translator with bridging theorems (_consider_line, Matcher.matches incl. its loop, stop/skip/fail functions) + correspondence + oracle",
     design="6/C13",
